@@ -172,6 +172,13 @@ def check(case, ctx):
         g = [x * 10.0 ** ge for x in g]
         N0 = N0 * 10.0 ** ge
         ctx.label("gains_scaled_1e%d" % ge)
+    if case.get("long") and int(case["long"][1]) % 2 == 0 and n >= 40:
+        # an OFDM-sized problem at low power: only 5 % of the channels get
+        # any power (the loop that removes channels runs 0.95 n times)
+        fs = sorted(N0 / (Es * gi) for gi in g)
+        kk = max(1, n // 20)
+        Pt = math.fsum(fs[kk] - fs[i] for i in range(kk)) * 1.001
+        ctx.label("long_vector_mostly_off")
     sw = case.get("pt_switch")
     if sw and n >= 2:
         fl_sorted = sorted(N0 / (Es * gi) for gi in g)
